@@ -68,7 +68,7 @@ class Case:
         self.meta = {}
 
 
-def gen_case(rng, cid, ntypes=None, adversarial=False, ninj=1, nfiles=1, force_async=None, types_keys=None, shadow_import=False):
+def gen_case(rng, cid, ntypes=None, adversarial=False, ninj=1, nfiles=1, force_async=None, types_keys=None, shadow_import=False, parallel=False):
     """One user package.  Providers: New<i>(deps...) (Ti[, error]); a final NewApp consumes everything not yet consumed."""
     c = Case(cid)
     decls = []
@@ -124,7 +124,7 @@ def gen_case(rng, cid, ntypes=None, adversarial=False, ninj=1, nfiles=1, force_a
     fallible_any = False
     for i, t in enumerate(alltypes):
         deps = []
-        if i > 0 and rng.random() < 0.6:
+        if i > 0 and rng.random() < 0.6 and not (parallel and i < 2):
             deps = rng.sample(range(i), rng.randint(1, min(2, i)))
         is_async = (rng.random() < 0.5) if force_async is None else force_async
         fall = rng.random() < 0.35
@@ -246,7 +246,7 @@ def corpus(tier, sd):
         n += 1
     for key in ('extptr', 'extval', 'genericext', 'mapext'):
         for asy in ((True,) if quick else (True, False)):
-            cases.append(gen_case(rng, 's%03d' % n, types_keys=[key, rng.choice(['ptrstruct', 'string', 'slice'])], force_async=asy, shadow_import=True))
+            cases.append(gen_case(rng, 's%03d' % n, types_keys=[key, rng.choice(['ptrstruct', 'string', 'slice'])], force_async=asy, shadow_import=True, parallel=True))
             n += 1
     return cases
 
